@@ -385,7 +385,7 @@ class Color:
 
     def _rgbatohex_raw(self, rgba):
         values = [
-            "%x" % int(v)
+            "%d" % int(v)
             for v in [0xff if h > 0xff else 0 if h < 0 else h for h in rgba]
         ]
         return values
